@@ -25,7 +25,10 @@ type Obligation struct {
 	MustSat bool
 	Canary  bool
 	seeded  bool
+	ground  bool // seeded, and residual user quantifiers dropped
+	groundLevel int
 	caseSub *mergeCase
+	Block   *ssa.BasicBlock // block of the program point (nil: unknown)
 	// result
 	Res *SolveResult
 }
@@ -65,6 +68,10 @@ type Gen struct {
 	cfg  *CFG
 	Defs []*Term
 	defSeen map[*Term]bool
+	defBlk  map[*Term]*ssa.BasicBlock // block in which a definition was made (absent: keep everywhere)
+	tagBlock *ssa.BasicBlock           // inlined sub-generators tag with the caller's block
+	ancMemo  map[*ssa.BasicBlock]map[*ssa.BasicBlock]bool
+	symCache map[*Term][]string
 	Obls []*Obligation
 
 	env      map[ssa.Value]Val
@@ -91,6 +98,7 @@ type Gen struct {
 	Abstracted  map[string]bool
 	BindErrs    []string
 	params      map[string]Val
+	ghostVals   map[string]Val // ghost parameters of the function under verification
 	results     []string // result names
 	debugVals   map[string][]debugBinding
 	strLits     map[string]*Term
@@ -151,6 +159,7 @@ func NewGen(p *Program, fn *ssa.Function, c *Contract) *Gen {
 func (g *Gen) reset() {
 	g.Defs = nil
 	g.defSeen = map[*Term]bool{}
+	g.defBlk = map[*Term]*ssa.BasicBlock{}
 	g.Obls = nil
 	g.env = map[ssa.Value]Val{}
 	g.out = map[*ssa.BasicBlock]*State{}
@@ -195,7 +204,14 @@ func (g *Gen) unsupported(format string, a ...any) {
 }
 
 func (g *Gen) assume(t *Term) {
-	if t == nil || t.IsTrue() || g.defSeen[t] {
+	if t == nil || t.IsTrue() {
+		return
+	}
+	if g.defSeen[t] {
+		// stated again from another block: keep it for every obligation
+		if b, ok := g.defBlk[t]; ok && b != g.effBlock() {
+			delete(g.defBlk, t)
+		}
 		return
 	}
 	if hasFreeBound(t) {
@@ -205,6 +221,42 @@ func (g *Gen) assume(t *Term) {
 	}
 	g.defSeen[t] = true
 	g.Defs = append(g.Defs, t)
+	if b := g.effBlock(); b != nil && g.defBlk != nil {
+		g.defBlk[t] = b
+	}
+}
+
+func (g *Gen) effBlock() *ssa.BasicBlock {
+	if g.tagBlock != nil {
+		return g.tagBlock
+	}
+	return g.curBlock
+}
+
+// ancestors: the blocks from which b is reachable along forward edges (b included).
+func (g *Gen) ancestors(b *ssa.BasicBlock) map[*ssa.BasicBlock]bool {
+	if g.ancMemo == nil {
+		g.ancMemo = map[*ssa.BasicBlock]map[*ssa.BasicBlock]bool{}
+	}
+	if m, ok := g.ancMemo[b]; ok {
+		return m
+	}
+	m := map[*ssa.BasicBlock]bool{}
+	var rec func(x *ssa.BasicBlock)
+	rec = func(x *ssa.BasicBlock) {
+		if m[x] {
+			return
+		}
+		m[x] = true
+		for _, p := range x.Preds {
+			if !g.isBack(p, x) {
+				rec(p)
+			}
+		}
+	}
+	rec(b)
+	g.ancMemo[b] = m
+	return m
 }
 
 // assumeAt adds a fact that holds only when the current point is reached.
@@ -239,7 +291,7 @@ func (g *Gen) oblige(st *State, kind, suffix, clause string, pos token.Pos, goal
 		if len(parts) > 1 {
 			nm = fmt.Sprintf("%s/%d", name, j)
 		}
-		o := &Obligation{Name: nm, Kind: kind, Fn: g.Key, Clause: clause, Pos: g.pos(pos), NDefs: len(g.Defs), Reach: st.Reach, Goal: p, Gen: g}
+		o := &Obligation{Name: nm, Kind: kind, Fn: g.Key, Clause: clause, Pos: g.pos(pos), NDefs: len(g.Defs), Reach: st.Reach, Goal: p, Gen: g, Block: g.effBlock()}
 		g.Obls = append(g.Obls, o)
 	}
 	// a checked assertion is an assumption for what follows
@@ -888,6 +940,18 @@ func (g *Gen) runOnce() error {
 	// preconditions
 	if g.C != nil {
 		sc := g.specCtx(st, st, nil)
+		// ghost parameters: arbitrary but fixed values (the caller chooses them)
+		g.ghostVals = map[string]Val{}
+		for _, q := range g.C.Ghosts {
+			ty, err := sc.typeByName(q.Type)
+			if err != nil || scalarSort(ty) == nil {
+				g.BindErrs = append(g.BindErrs, fmt.Sprintf("ghost %s %s: unsupported type", q.Name, q.Type))
+				continue
+			}
+			c := Const(g.prefix+"!ghost!"+q.Name, scalarSort(ty))
+			g.ghostVals[q.Name] = scalar(c, ty)
+			g.assume(inRange(c, ty))
+		}
 		for _, cl := range g.C.Requires {
 			t, err := sc.boolTerm(cl.E)
 			if err != nil {
